@@ -24,8 +24,8 @@ def gen_pattern(r: apigen.Rng, allow_dot=True):
         coll = r.pick(["shelves", "books", "as", "cs", "projects", "locations", "items", "k", "v1"]) + "/"
         lit += coll
         segs.append(["lit", lit]); lit = ""
-        # one path segment: 1..3 variables joined by non-slash separators
-        k = min(nvars - i, 1 if r.maybe(0.7) else r.randint(2, 3))
+        # one path segment: 1..6 variables joined by non-slash separators (the quantifier allows up to six in one segment)
+        k = min(nvars - i, 1 if r.maybe(0.6) else r.randint(2, 6))
         for j in range(k):
             name = f"v{i}" if r.maybe(0.3) else r.pick(["shelf", "book", "a", "b", "c", "d", "e", "project", "location", "item_id"])
             while name in used:
@@ -75,6 +75,8 @@ def gen_values(r: apigen.Rng, segs):
         k += 1
         n = r.randint(1, 6)
         v = "".join(r.pick(alpha) for _ in range(n))
+        if r.maybe(0.5):                       # every character family in one value: letters of both cases and digits
+            v += "".join(c for c in "aZ7" if c in alpha)
         if s[2] and idx == len(segs) - 1 and r.maybe(0.7):    # trailing ** may contain '/'
             v += "/" + "".join(r.pick(alpha) for _ in range(r.randint(1, 4)))
         vals.append(v)
